@@ -116,6 +116,21 @@ def run(ctx):
                 if out[:2] != ('val', "TRUE" if w else "FALSE"):
                     ctx.violation("oracle", f"`{src}` with a={proto.show(a)}, b={proto.show(b)} gives {out[:2]}, expected {w}",
                                   {"op": "program", "src": src, "a": proto.to_sx(a), "b": proto.to_sx(b)})
+        # compare agrees with <, ==, > on EVERY pair of the numeric boundary values (ints around 2^53 and 2^63 against the decimals next to them)
+        if all(p_[0] in ('i', 'd') for p_ in pool):
+            edge = [k for k, p_ in enumerate(pool) if abs(p_[1]) >= 2 ** 52 or p_[1] in (0, 1, -1, 0.5, 1.5)][:14]
+            for i in edge:
+                for j in edge:
+                    env.put("a", ck[i])
+                    env.put("b", ck[j])
+                    wl, wg = ref_lt(pool[i], pool[j]), ref_lt(pool[j], pool[i])
+                    want_c = -1 if wl else (1 if wg else 0)
+                    out = common.run_program(it, "[compare(a, b), a < b, a == b, a > b]")
+                    ctx.count("programs")
+                    want_txt = f"[{want_c}, {'TRUE' if wl else 'FALSE'}, {'TRUE' if not wl and not wg else 'FALSE'}, {'TRUE' if wg else 'FALSE'}]"
+                    if out[:2] != ('val', want_txt):
+                        ctx.violation("oracle", f"`[compare(a, b), a < b, a == b, a > b]` with a={proto.show(pool[i])}, b={proto.show(pool[j])} gives {out[:2]}, the order gives {want_txt}",
+                                      {"op": "program", "src": "[compare(a, b), a < b, a == b, a > b]", "a": proto.to_sx(pool[i]), "b": proto.to_sx(pool[j])})
         # min / max of lists: an extremal element, the first such
         for _ in range(60 if ctx.thorough else 20):
             idxs = [rng.randrange(N) for _ in range(rng.randint(1, 6))]
@@ -260,6 +275,25 @@ def run(ctx):
                           {"op": "sorted", "src": "sorted(l)", "l": proto.to_sx(('l', tuple(plain)))})
         reqs.append(f"(sorted {proto.to_sx(('l', tuple(plain)))})")
         meta.append(("sorted", plain, None, [proto.enum_form(x) for x in wantp]))
+    # ---- sorted with a key on lists holding EQUAL but distinguishable numbers (1 and 1.0): the key is applied to each element itself
+    # (stable sort by the key's own order), whatever equal twin came before it
+    nums = [('i', 1), ('d', 1.0), ('i', 2), ('d', 2.0), ('d', 0.5), ('i', 0)]
+    for n_ in range(2, 5):
+        for combo in itertools.product(range(len(nums)), repeat=n_):
+            if len(set(combo)) < 2 or (not ctx.thorough and rng.random() < 0.8):
+                continue
+            items = [nums[k] for k in combo]
+            env.put("l", proto.to_ckl(('l', tuple(items))))
+            for src, keyf in (("sorted(l, key = fn(x) string(x))", lambda x: proto.show(x) if False else (str(x[1]) if x[0] == 'i' else repr(float(x[1])))),
+                              ("sorted(l, key = fn(x) type(x))", lambda x: "int" if x[0] == 'i' else "decimal"),
+                              ("sorted(l, key = fn(x) [type(x), x])", lambda x: ("int" if x[0] == 'i' else "decimal", Fraction(x[1])))):
+                want = sorted(items, key=keyf)
+                out = common.run_program(it, src)
+                ctx.count("sorted_programs")
+                got = proto.from_ckl(out[2])[1] if out[0] == 'val' else None
+                if got is None or [proto.enum_form(x) for x in got] != [proto.enum_form(x) for x in want]:
+                    ctx.violation("oracle", f"`{src}` on {proto.show(('l', tuple(items)))} gives {out[1] if len(out) > 1 else out}, expected the stable sort by key {proto.show(('l', tuple(want)))}",
+                                  {"op": "sorted", "src": src, "l": proto.to_sx(('l', tuple(items)))})
     ctx.exhaustive = False
     # ---- correspondence with the model
     if ctx.build.ok:
